@@ -423,4 +423,4 @@ def mod(a, m):
     qa, qm = _pi_multiple(a), _pi_multiple(m)
     if qa is not None and qm is not None and qm != 0:
         return core.CTX.pi * (qa - qm * (qa // qm))
-    raise NotImplementedError("mod of symbolic reals")
+    return a - m * core.floor_int(a / m)  # Python / numpy sign convention: the result has the sign of m
